@@ -69,4 +69,5 @@ REALS = ['ClassicalDedekindReals.sig_forall_dec', 'ClassicalDedekindReals.sig_no
          'FunctionalExtensionality.functional_extensionality_dep', 'Classical_Prop.classic']
 ALLOW_AXIOMS = {
     'C03': REALS,
+    'C04': REALS,
 }
